@@ -75,6 +75,13 @@ CHECKS["C12"] = dict(
     technique="forward must-dataflow (verdict-implication facts, origin tracking of exponents) over the clang CFG + enum-table resolution",
 )
 
+CHECKS["C15"] = dict(
+    text="Static decision of structural necessary conditions of C15 over the Hash_DRBG unit and the integer samplers: an interval analysis with C integer semantics (types, promotions, wrap-around; interprocedural over the static helpers; the reseed counter bounded only by its type because every write of it is a constant or an increment) shows that every carry-propagating big-endian addition accumulates its sum exactly (DRBG-CARRY) and that no length sizing an allocation or copy was narrowed (DRBG-LEN) - both quantify over call histories and seed lengths the two-call vectors never reach; forward must-dataflow over the exploded CFG shows that output is produced only within the 2^16-byte request limit (DRBG-LIMIT), that every normal return of generate performed output, H = Hash(03||V), V += C, V += H with carry, V += counter and then counter++ (DRBG-UPDATE), that (re)seeding derives V from seed resp. 01||V||seed, then C from 00||V, and resets counter and flag (DRBG-SEED), that bn_rand_mod returns reduced and non-zero values (RAND-RANGE), that bn_rand masks and normalises (RAND-BITS), and the call graph shows no other source of randomness (RAND-SOURCE). Byte-for-byte equality with SP 800-90A (hash function, hash_df arithmetic) is a value property and is not decided.",
+    design_ref="DESIGN.md section 3 (C15)",
+    note="Trusted: clang parser/CFG/constant evaluator, extractor, sa/py/relic_sa/intervals.py (flow-insensitive intervals with widening; branch facts only refine arguments at call sites), the recognition of the update steps by callee name and argument shape (a generate/seed function without the helpers is analysis-broken, not a verdict). Validated on every run by miniatures in sa/selftest/c15.c.",
+    technique="interval abstract interpretation (C integer semantics, interprocedural) + forward must-dataflow (ordered must-pass-through events) + call-graph who-may-call rule over the clang CFG",
+)
+
 NOT_APPLICABLE = {
     "C10": "every clause is an equality of ring elements for all operand values; no guard, ordering or ownership structure whose violation is visible in the code's shape, and lazy-reduction bounds need a relational numeric domain that goto-analyzer's intervals cannot carry across the *_low calls",
     "C11": "group law, [k]Q, Frobenius eigenvalue and cofactor image are algebraic identities over runtime values; the structural clauses (decoders, buffers, regularity) of the ep2..ep8 siblings are decided under C07, C08 and C20",
